@@ -100,7 +100,8 @@ def c02(tier, repo):
                        'R-BOUND (interval argument: from 0 <= size <= capacity and the path tests, the counter stays in range after '
                        'every change; the eviction trigger is exactly size >= capacity), R-OBSERVERS (size/empty/capacity return the '
                        'counter / counter==0 / the size of storage that only the constructor sizes, with the capacity argument), '
-                       'R-PURGE-FIRST (ut_map/ut_set purge before consulting the index). The step from these clauses to the '
+                       'R-PURGE-FIRST / R-PURGE-SHAPE / ORD-WITNESS (ut_map/ut_set: complete purge before consulting the index), '
+                       'R-BIND-DOMINATED (an index insertion is dominated by a failed lookup of that key), R-CTOR-SHAPE. The step from these clauses to the '
                        'behavioural statement is the induction of DESIGN.md section 1 and is not machine-checked.')
     res.assumptions += ['capacity >= 1', 'representation invariant RI holds at entry (inductive hypothesis)']
     res.floors = {'R-BALANCE': 100, 'R-BOUND': 60, 'R-OBSERVERS': 28, 'R-PURGE-FIRST': 20, 'R-FULL-TEST': 14}
@@ -117,7 +118,10 @@ def c03(tier, repo):
                        'path valuation: erase(k) of the found entry; lookup of an expired entry (tlru/utlru); clean/purge guarded by the '
                        'removed node being expired; or exactly one policy victim, before the bind, on a new-key insert whose path '
                        'tested size >= capacity (fifo: head node holding a key), leaving the size unchanged. All other paths '
-                       '(non-full inserts, updates, lookups, rejected inserts, absent erases, dynamically_age) contain no removal.')
+                       '(non-full inserts, updates, lookups, rejected inserts, absent erases, dynamically_age) contain no removal. Also: '
+                       'R-FREED-SLOT-REUSABLE / R-SPLICE-DEST (a freed slot returns to the free side, so the next insert re-uses it instead of '
+                       'evicting), R-PERM-FREED-IS-VICTIM (rr), R-ERASE-TRUTH (erase reports true exactly when it removed), keyed re-filing '
+                       'where a removal guard reads the ttl key.')
     res.assumptions += ['which resident the policy names as victim is decided by C10-C16', 'RI at entry (inductive hypothesis)']
     res.floors = {'R-REMOVE-LICENSE': 60, 'R-ONE-VICTIM': 35}
     return res
@@ -338,6 +342,36 @@ def thorough_extras(pid, res, repo):
                 for k in [k for k in _AN if k[0] == tmp]:
                     _AN.pop(k, None)
                 shutil.rmtree(tmp, ignore_errors=True)
+    # ---- positive controls for rules that match nothing on a healthy tree (controls/<name>/{patch.diff, expect.json})
+    ctl_dir = os.path.join(os.path.dirname(os.path.dirname(os.path.abspath(__file__))), 'controls')
+    ctl_ok = 0
+    if os.path.isdir(ctl_dir):
+        for name in sorted(os.listdir(ctl_dir)):
+            ej = os.path.join(ctl_dir, name, 'expect.json')
+            if not os.path.exists(ej):
+                continue
+            want = [e for e in json.load(open(ej))['expect'] if e['property'] == pid]
+            if not want:
+                continue
+            tmp = tempfile.mkdtemp(prefix='capcheck-control-')
+            try:
+                shutil.copytree(os.path.join(repo, 'inc'), os.path.join(tmp, 'inc'))
+                p = subprocess.run(['patch', '-s', '-p1', '-i', os.path.join(ctl_dir, name, 'patch.diff')], cwd=tmp, capture_output=True, text=True)
+                if p.returncode != 0:
+                    res.counts['control_patch_not_applicable'] = res.counts.get('control_patch_not_applicable', 0) + 1
+                    continue
+                sub = CHECKS[pid]('quick', tmp)
+                rules_hit = set(v.rule for v in sub.violations)
+                for e in want:
+                    if e['rule'] in rules_hit:
+                        ctl_ok += 1
+                    else:
+                        res.incomplete.append('SELF-TEST: positive control %s no longer triggers %s of %s' % (name, e['rule'], pid))
+            finally:
+                for k in [k for k in _AN if k[0] == tmp]:
+                    _AN.pop(k, None)
+                shutil.rmtree(tmp, ignore_errors=True)
+    res.counts['positive_controls_triggered'] = ctl_ok
     res.counts['selftest_seeded_caught'] = caught
     res.counts['selftest_seeded_missed'] = missed
     res.ob('SELF-TEST', ok=True, n=caught)
